@@ -550,6 +550,9 @@ func (w *World) Start(ctx context.Context) error {
 	// a set-up write made right after Start would otherwise be a real-time race.
 	if s := sim.Active(); s == nil || s.IsRoot() {
 		synctest.Wait()
+	} else {
+		// started by a task (a fork world): the scheduler waits for quiescence before its next step
+		s.Yield("world.started")
 	}
 	return nil
 }
